@@ -15,7 +15,7 @@ RULE = ("random record descriptions (C01's generator with a numeric-rich pool: z
         "(names, REDEFINES-x entries, first/second/last index of every table, refused indices): start, end, raw(), value() (or the exception class) and the "
         "list of slices value() took from the instance (a BytesInstance subclass that logs __getitem__); for every top-level property nav.name(k).value(), and "
         "Row.values(). The judge checks whole-versus-part on the observations, decodes every elementary item from its own bytes with the C02 model, and compares "
-        "everything with the value model. All navigators of a case are created breadth-first from shared, held parent navigators before anything is read. Own streams: OCCURS DEPENDING ON inside a repeated group (index raises KeyError) and index(-1). "
+        "everything with the value model. All navigators of a case are created breadth-first from shared, held parent navigators before anything is read. Own streams: OCCURS DEPENDING ON inside a repeated group (index raises KeyError) and negative indices on every table (-1 and a second negative number: IndexError demanded). "
         "Non-trivial = tree has OCCURS, REDEFINES, ODO or an undecodable field (branch > 1); distinct = distinct case lines.")
 TRIVIAL_BRANCHES = [1]
 ASSUMPTIONS = ["widths of elementary items are given to the judge as the widths C04's specification lists",
@@ -338,13 +338,20 @@ def observe(ctx, c):
             if p and p[-1][0] == 1 and p[:-1] not in tables:
                 tables.append(p[:-1])
 
-        def neg(p):
+        def neg(p, z):
             tp = tuple(map(tuple, p))
             if tp in errs:
                 return [1, errs[tp]]
-            nav = navs[tp].index(-1)
+            nav = navs[tp].index(z)
             return [0, nav.location.start, nav.location.end]
-        negs = [[p, guarded(lambda: neg(p))] for p in tables]
+        # every table is asked for a negative index: -1, and one drawn from the case's own seed (around minus the number
+        # of occurrences, where a wrap-around implementation would find a valid occurrence, or far below)
+        import random
+        nrng = random.Random(c["seed"] ^ 0x5EED)
+        negs = []
+        for p in tables:
+            for z in (-1, -nrng.choice([2, 3, 4, 5, 9, 10, 100, 32768])):
+                negs.append([p, guarded(lambda: neg(p, z)), z])
     return head + [path_obs, [tops, rowvals], negs, total_extent(tree, env) - len(record)]
 
 
